@@ -20,7 +20,7 @@ KIND_T = {2: "symtab", 11: "dynsym", 6: "dynamic", 5: "hash", 0x6ffffff6: "gnuha
 
 def gen(rng, tier):
     cases = []
-    n = 320 if tier == "quick" else 10000
+    n = 320 if tier == "quick" else 3000
     for i in range(n):
         kinds = [k for k in ("text", "symtab", "dynsym", "hash", "gnuhash", "dynamic", "note", "rel", "rela", "nobits", "strtab2", "versions") if rng.random() < 0.65]
         e, info = elfgen.sample_elf(rng, kinds=kinds)
